@@ -196,7 +196,7 @@ def r01_2(ctx) -> None:
 def _allowed(ctx, atom, unit_short: str, transforming: bool, depth: int = 0) -> Optional[str]:
     k = atom[0]
     if k in ("item", "user", "iter", "usernext"):
-        if transforming and depth == 0 and not unit_short.endswith("accumulate"):
+        if transforming and not unit_short.endswith("accumulate"):
             return f"an input item ({atom[1]}) instead of the function's result"
         return None
     if k in ("const", "none", "sentinel", "fresh"):
